@@ -219,7 +219,8 @@ def gen_programs(start, depth, level, kinds):
         for label, mj in AL.enabled(spec, level=level, kinds=kinds,
                                     reuse_names=tuple(deleted)):
             rec(ML.apply(spec, label, mj), steps + [(label, mj)],
-                deleted + ([mj[2]] if mj[0] == 'DeleteField' else []))
+                deleted + ([mj[2]] if mj[0] in ('DeleteField', 'RenameField')
+                           else []))
     rec(start, [], [])
     return out
 
